@@ -36,6 +36,9 @@ def run_mutations(pid, tier, seed, exe, wd):
     # a spread over fields/hashers/extensions/layer counts; bit-exhaustive on the first few small ones
     step = max(1, len(stmts) // (10 if tier == "quick" else 60))
     chosen = stmts[::step]
+    # one statement with a single query over a small domain and no grinding: the colliding-nonce search applies to it
+    small = [s for s in stmts if s["t"]["q"] == 1 and s["t"]["grind"] == 0 and s["t"]["ln"] + s["t"]["lb"] <= 6]
+    chosen = small[:1] + chosen
     scs = [starkgen.scenario(rec, i, seed) for i, rec in enumerate(chosen)]
     msets, st, tr = mutation_sets({sc["layers"] for sc in scs}, wd)
     obs = []
@@ -99,6 +102,8 @@ def run(tier, seed, pid="C03"):
         for f in o["findings"]:
             mut, out = f["mutation"], f["outcome"]
             where = mut.split(" in ")[-1] if mut.startswith(("bit", "byte")) else mut
+            if where.startswith("pow_nonce"):
+                where = "pow_nonce"
             if pid == "C03" and out == "accepted-different":
                 v.violation("integrity/accepted/%s" % where, "a proof whose decoded content differs from an accepted proof (%s) is ACCEPTED (%s)" % (mut, ctx),
                             {"scenario": sc, "mutation": mut})
